@@ -759,6 +759,7 @@ func expandCallOpt(e *Engine, p *packages.Package, f *ast.File, c *ast.CallExpr,
 		rewriteReturns(copyDecl.Body, resNames, label)
 	}
 	body = append(body, copyDecl.Body.List...)
+	body = append(body, &ast.BranchStmt{Tok: token.BREAK, Label: ast.NewIdent(label)}) // a label must be used
 	sw := &ast.SwitchStmt{Body: &ast.BlockStmt{List: []ast.Stmt{&ast.CaseClause{Body: body}}}}
 	pre = append(pre, &ast.LabeledStmt{Label: ast.NewIdent(label), Stmt: sw})
 	if foldedOf != nil {
